@@ -87,17 +87,19 @@ pub fn load_corpus(root: &Path) -> Result<Vec<Program>, String> {
 
 // ---------------------------------------------------------------- declaration soup
 
-const NAMES: [&str; 12] = ["alpha", "beta", "gamma", "delta", "eps", "zeta", "eta", "theta", "iota", "kappa", "lam", "mu"];
-const WORDS: [&str; 10] = ["hello", "world", "atari", "cc6502", "abc", "a", "zz top", "x=1;", "%d\\n", "tab\\there"];
+const NAMES: [&str; 8] = ["alpha", "beta", "gamma", "delta", "eps", "zeta", "eta", "theta"];
+const WORDS: [&str; 8] = ["hello", "world", "atari", "OK", "KO", "a", "x=1;", "tab\\there"];
+const PARAMS: [&str; 3] = ["x", "v", "n"];
 
 /// A program assembled from the ingredients C05 names: many globals, several string literals per
-/// expression / initialiser / table, prototypes defined later in another order, interrupt handlers,
-/// inline and banked functions, shadowed locals, macros. Workload only: the oracle never looks at
-/// what the program means. Deliberately draws identifiers from a small pool so that different
-/// programs of one history share names.
+/// expression / initialiser / table (with repeats), prototypes defined later in another order,
+/// interrupt handlers, inline and banked functions, shadowed locals, object-like and function-like
+/// macros that are used. Workload only: the oracle never looks at what the program means.
+/// Identifiers, macro names, parameter names and words come from deliberately tiny pools so that the
+/// programs of one history share names while differing in what the names mean, and top-level items
+/// are emitted in random order (tables before and after the code that mentions the same strings).
 pub fn soup(seed: u64) -> Program {
     let mut r = Rng::new(seed ^ 0x50_55_50);
-    let mut s = String::new();
     let mut args: Vec<String> = vec![format!("-O{}", r.below(4))];
     if r.chance(1, 4) {
         args.push("--insert-code".into());
@@ -109,95 +111,146 @@ pub fn soup(seed: u64) -> Program {
     if r.chance(1, 6) {
         args.push("--fsigned_char".into());
     }
-    let nmac = r.below(4);
-    for i in 0..nmac {
-        let n = NAMES[r.usize_below(NAMES.len())].to_uppercase();
-        match r.below(3) {
-            0 => s.push_str(&format!("#define {}{} {}\n", n, i, r.below(200))),
-            1 => s.push_str(&format!("#define {}{}(x) ((x) + {})\n", n, i, r.below(9))),
+    let word = |r: &mut Rng| WORDS[r.usize_below(WORDS.len())];
+    let name = |r: &mut Rng| NAMES[r.usize_below(NAMES.len())];
+
+    // macros: (NAME, arity); tiny pool => the same name gets another shape in another program
+    let mut head = String::new();
+    let mut macros: Vec<(String, usize)> = Vec::new();
+    for _ in 0..r.below(4) {
+        let n = name(&mut r).to_uppercase();
+        if macros.iter().any(|m| m.0 == n) {
+            continue;
+        }
+        match r.below(5) {
+            0 => {
+                head.push_str(&format!("#define {} {}\n", n, r.below(200)));
+                macros.push((n, 0));
+            }
+            1 => {
+                let p = PARAMS[r.usize_below(3)];
+                head.push_str(&format!("#define {}({}) (({}) + {})\n", n, p, p, r.below(9)));
+                macros.push((n, 1));
+            }
+            2 => {
+                let p = PARAMS[r.usize_below(3)];
+                let q = PARAMS[(r.usize_below(2) + 1 + PARAMS.iter().position(|x| *x == p).unwrap()) % 3];
+                head.push_str(&format!("#define {}({}, {}) (({}) | ({}))\n", n, p, q, p, q));
+                macros.push((n, 2));
+            }
+            3 => {
+                head.push_str(&format!("#define {} \"{}\"\n", n, word(&mut r)));
+                macros.push((n, 9));
+            }
             _ => {
                 args.push("-D".into());
-                args.push(format!("{}{}={}", n, i, r.below(50)));
+                args.push(format!("{}={}", n, r.below(50)));
+                macros.push((n, 0));
             }
         }
     }
-    // globals
-    let nglob = 1 + r.below(10);
-    let mut globals = Vec::new();
+    let use_macro = |r: &mut Rng, macros: &Vec<(String, usize)>| -> Option<String> {
+        let nums: Vec<&(String, usize)> = macros.iter().filter(|m| m.1 != 9).collect();
+        if nums.is_empty() {
+            return None;
+        }
+        let m = nums[r.usize_below(nums.len())];
+        Some(match m.1 {
+            0 => m.0.clone(),
+            1 => format!("{}({})", m.0, r.below(20)),
+            _ => format!("{}({}, {})", m.0, r.below(20), r.below(20)),
+        })
+    };
+
+    // top-level items in random order
+    let mut items: Vec<String> = Vec::new();
+    let nglob = 1 + r.below(8);
     for i in 0..nglob {
-        let n = format!("{}{}", NAMES[r.usize_below(NAMES.len())], i);
-        match r.below(7) {
-            0 => s.push_str(&format!("unsigned char {};\n", n)),
-            1 => s.push_str(&format!("short {};\n", n)),
-            2 => s.push_str(&format!("char {}[{}];\n", n, 2 + r.below(6))),
-            3 => s.push_str(&format!("const char {}[] = {{{}, {}, {}}};\n", n, r.below(256), r.below(256), r.below(256))),
-            4 => s.push_str(&format!("const char *{} = \"{}\";\n", n, WORDS[r.usize_below(WORDS.len())])),
+        let n = format!("{}{}", name(&mut r), i % 3);
+        let it = match r.below(7) {
+            0 => format!("unsigned char g_{};\n", n),
+            1 => format!("short g_{};\n", n),
+            2 => format!("char g_{}[{}];\n", n, 2 + r.below(6)),
+            3 => format!("const char g_{}[] = {{{}, {}, {}}};\n", n, r.below(256), r.below(256), r.below(256)),
+            4 => format!("const char *g_{} = \"{}\";\n", n, word(&mut r)),
             5 => {
                 let k = 2 + r.below(3);
-                let items: Vec<String> = (0..k).map(|_| format!("\"{}\"", WORDS[r.usize_below(WORDS.len())])).collect();
-                s.push_str(&format!("const char *{}[] = {{{}}};\n", n, items.join(", ")));
+                let v: Vec<String> = (0..k).map(|_| format!("\"{}\"", word(&mut r))).collect();
+                format!("const char *g_{}[] = {{{}}};\n", n, v.join(", "))
             }
-            _ => s.push_str(&format!("char *{};\n", n)),
+            _ => format!("char *g_{};\n", n),
+        };
+        if !items.iter().any(|x| x.contains(&format!(" g_{}", n)) || x.contains(&format!("*g_{}", n))) {
+            items.push(it);
         }
-        globals.push(n);
     }
-    s.push_str("char *sink; unsigned char acc;\n");
-    // functions: prototypes first (random subset), definitions in shuffled order
-    let nfun = 1 + r.below(6);
-    let mut funs: Vec<(String, u64, bool)> = Vec::new(); // name, nparams, returns
+    let nfun = 1 + r.below(5);
+    let mut funs: Vec<(String, u64, bool)> = Vec::new();
     for i in 0..nfun {
-        funs.push((format!("f_{}{}", NAMES[r.usize_below(NAMES.len())], i), r.below(3), r.chance(1, 2)));
+        funs.push((format!("f_{}{}", name(&mut r), i), r.below(3), r.chance(1, 2)));
     }
     let sig = |f: &(String, u64, bool)| -> String {
         let ps: Vec<String> = (0..f.1).map(|k| format!("char p{}", k)).collect();
         format!("{} {}({})", if f.2 { "char" } else { "void" }, f.0, ps.join(", "))
     };
+    let mut protos = String::new();
     for f in &funs {
         if r.chance(1, 2) {
-            s.push_str(&format!("{};\n", sig(f)));
+            protos.push_str(&format!("{};\n", sig(f)));
         }
-    }
-    let mut order: Vec<usize> = (0..funs.len()).collect();
-    for i in (1..order.len()).rev() {
-        let j = r.usize_below(i + 1);
-        order.swap(i, j);
     }
     if r.chance(1, 3) {
-        s.push_str("void interrupt irq_handler() { acc++; }\n");
+        items.push("void interrupt irq_handler() { acc++; }\n".into());
     }
-    for &i in &order {
-        let f = &funs[i];
+    for f in &funs {
+        let mut b = String::new();
         let prefix = if r.chance(1, 6) && f.1 == 0 { "inline " } else { "" };
-        s.push_str(&format!("{}{} {{\n", prefix, sig(f)));
+        b.push_str(&format!("{}{} {{\n", prefix, sig(f)));
         let nloc = r.below(3);
         for k in 0..nloc {
-            s.push_str(&format!("  char l{};\n", k));
+            b.push_str(&format!("  char l{};\n", k));
         }
         for k in 0..nloc {
-            s.push_str(&format!("  l{} = {};\n", k, r.below(100)));
+            b.push_str(&format!("  l{} = {};\n", k, r.below(100)));
         }
         if r.chance(1, 2) {
-            s.push_str(&format!("  {{ char l0; l0 = {}; acc = l0; }}\n", r.below(50)));
+            b.push_str(&format!("  {{ char l0; l0 = {}; acc = l0; }}\n", r.below(50)));
         }
-        if r.chance(1, 2) {
-            s.push_str(&format!("  sink = \"{}\";\n", WORDS[r.usize_below(WORDS.len())]));
+        for _ in 0..r.below(3) {
+            b.push_str(&format!("  sink = \"{}\";\n", word(&mut r)));
+        }
+        if let Some(m) = use_macro(&mut r, &macros) {
+            if r.chance(1, 2) {
+                b.push_str(&format!("  acc = {};\n", m));
+            }
         }
         if f.2 {
-            s.push_str(&format!("  return {};\n", r.below(200)));
+            b.push_str(&format!("  return {};\n", r.below(200)));
         }
-        s.push_str("}\n");
+        b.push_str("}\n");
+        items.push(b);
     }
-    // a two-pointer consumer so that several literals can meet in one expression
+    for i in (1..items.len()).rev() {
+        let j = r.usize_below(i + 1);
+        items.swap(i, j);
+    }
+    let mut s = head;
+    s.push_str("char *sink; unsigned char acc;\n");
     s.push_str("void two(char *a, char *b) { sink = a; sink = b; }\n");
+    s.push_str(&protos);
+    // functions must be defined before use unless prototyped: keep un-prototyped ones callable only later
+    let mut late: Vec<String> = Vec::new();
+    for it in items {
+        if r.chance(1, 5) && !it.contains('(') {
+            late.push(it);
+        } else {
+            s.push_str(&it);
+        }
+    }
     s.push_str("void main() {\n");
-    let nst = 1 + r.below(6);
-    for _ in 0..nst {
-        match r.below(5) {
-            0 => s.push_str(&format!(
-                "  two(\"{}\", \"{}\");\n",
-                WORDS[r.usize_below(WORDS.len())],
-                WORDS[r.usize_below(WORDS.len())]
-            )),
+    for _ in 0..1 + r.below(6) {
+        match r.below(6) {
+            0 => s.push_str(&format!("  two(\"{}\", \"{}\");\n", word(&mut r), word(&mut r))),
             1 => {
                 let f = &funs[r.usize_below(funs.len())];
                 let ps: Vec<String> = (0..f.1).map(|_| format!("{}", r.below(200))).collect();
@@ -207,12 +260,21 @@ pub fn soup(seed: u64) -> Program {
                     s.push_str(&format!("  {}({});\n", f.0, ps.join(", ")));
                 }
             }
-            2 => s.push_str(&format!("  acc = acc + {};\n", r.below(255))),
+            2 => match use_macro(&mut r, &macros) {
+                Some(m) => s.push_str(&format!("  acc = acc + {};\n", m)),
+                None => s.push_str(&format!("  acc = acc + {};\n", r.below(255))),
+            },
             3 => s.push_str(&format!("  if (acc < {}) acc++; else acc = 0;\n", r.below(255))),
+            4 => s.push_str(&format!("  sink = \"{}\"; sink = \"{}\";\n", word(&mut r), word(&mut r))),
             _ => s.push_str(&format!("  for (X = 0; X != {}; X++) acc += X;\n", 1 + r.below(20))),
         }
     }
+    if let Some(m) = macros.iter().find(|m| m.1 == 9) {
+        s.push_str(&format!("  sink = {};\n", m.0));
+    }
     s.push_str("}\n");
-    let _ = globals;
+    for it in late {
+        s.push_str(&it);
+    }
     Program { name: format!("soup/{:016x}", seed), source: s.into_bytes(), args, includes: Vec::new() }
 }
